@@ -11,3 +11,22 @@ ASSUMPTIONS = ["theorems are about the Lean models of Zooming; they are tied to 
                "object and cross-checked to 1e-9)",
                "score theorems hold for every linear order of scores and every formula record; IEEE rounding is not modelled"]
 TRUSTED = ["harness/algo_cases.py, harness/monitors.py, harness/common.py (instrumented partition subclasses, RNG patching)", "lean/PyXABModel/Drv (driver)"]
+
+# directed cases: dyadic parameters for which the confidence radius meets nu*rho^depth EXACTLY (the rule is "<=")
+DIRECTED = [
+    ("Zooming", {"params": {"nu": 2.0, "rho": 0.5}, "kind": "binary", "d": 1, "T": 80, "rmode": "const", "bmode": "unit"}),
+    ("Zooming", {"params": {"nu": 1.0, "rho": 0.5}, "kind": "binary", "d": 1, "T": 260, "rmode": "const", "bmode": "unit"}),
+    ("Zooming", {"params": {"nu": 4.0, "rho": 0.5}, "kind": "kary", "K": 3, "d": 2, "T": 120, "rmode": "const"}),
+]
+_explore = explore
+
+
+def explore(tier, seed, n):
+    import algo_prop, framework as fw
+    res = _explore(tier, seed, n)
+    directed = algo_prop.run_cases([(970000 + j + 100 * seed, 0, a, f) for j, (a, f) in enumerate(DIRECTED)], parallel=False)
+    mism, n_ops = fw.compare(directed)
+    res["cases"] = directed + res["cases"]
+    res["mism"] = mism + res["mism"]
+    res["n_ops"] += n_ops
+    return res
